@@ -96,6 +96,15 @@ KeyHandlerCallable = Callable[
 ]
 
 
+def _always_save_before(event: KeyPressEvent) -> bool:
+    """
+    Default `save_before` of `KeyBindings.add`: always save the buffer to the
+    undo stack before calling the handler. (A named function, so that `add`
+    can tell whether `save_before` was passed explicitly.)
+    """
+    return True
+
+
 class Binding:
     """
     Key binding: (key sequence + handler + filter).
@@ -252,7 +261,7 @@ class KeyBindings(KeyBindingsBase):
         filter: FilterOrBool = True,
         eager: FilterOrBool = False,
         is_global: FilterOrBool = False,
-        save_before: Callable[[KeyPressEvent], bool] = (lambda e: True),
+        save_before: Callable[[KeyPressEvent], bool] = _always_save_before,
         record_in_macro: FilterOrBool = True,
     ) -> Callable[[T], T]:
         """
@@ -296,7 +305,15 @@ class KeyBindings(KeyBindingsBase):
                             filter=func.filter & to_filter(filter),
                             eager=to_filter(eager) | func.eager,
                             is_global=to_filter(is_global) | func.is_global,
-                            save_before=func.save_before,
+                            # An explicitly given `save_before` wins over the
+                            # one of the existing binding. (Otherwise
+                            # `add(..., save_before=f)(get_by_name(...))`
+                            # would silently ignore `f`.)
+                            save_before=(
+                                func.save_before
+                                if save_before is _always_save_before
+                                else save_before
+                            ),
                             record_in_macro=func.record_in_macro,
                         )
                     )
